@@ -131,7 +131,7 @@ func (w *worker) call(pr *Project, d time.Duration) (Result, string) {
 	}
 	ch := make(chan rr, 1)
 	go func() {
-		if err := w.enc.Encode(pr); err != nil {
+		if err := w.enc.Encode(pr.Wire()); err != nil {
 			ch <- rr{err: err}
 			return
 		}
